@@ -794,7 +794,7 @@ def _oracle_basis(case, impl):
             if isinstance(a, str) or isinstance(b_, str):
                 if (isinstance(a, str) != isinstance(b_, str)) and not str(a).startswith("skip:") and not str(b_).startswith("skip:"):
                     bad("history", "BasisFunctionalData.*", f"{kb} = {str(a)[:40]} but {kf} = {str(b_)[:40]}")
-            elif not _near(a, b_, 4 * quad + 4 * lin * lin + 1, 1e-8):
+            elif not _near(a, b_, _scale(a, b_), 1e-7):
                 bad("history", "BasisFunctionalData.*", f"{kb} differs from {kf}: a repeated / later call on the same object does not match a fresh computation")
     if "hist_error" in impl:
         bad("history", "BasisFunctionalData.*", f"history raised {impl['hist_error']}")
